@@ -12,6 +12,8 @@ import TshVerif.Model.Wf
 import TshVerif.Model.Typed
 import TshVerif.Model.StdStrings
 import TshVerif.Sem.Src
+import TshVerif.Sem2.Src
+import TshVerif.Sem2.Bash
 
 open Tsh
 
@@ -114,15 +116,24 @@ def semRes (r : Option (Sem.Out × List String)) : String :=
       | .cont => "cont"
     st ++ ":" ++ hexOfString (String.join (out.map fun l => l ++ "\n"))
 
+def semOut (st : String) (out : List String) : String :=
+  st ++ ":" ++ hexOfString (String.join (out.map fun l => l ++ "\n"))
+
 def handleSem (args : List String) : String :=
   match parseArgs args with
   | none => "BADREQ"
   | some (fs, m) =>
     match Parser.parse fs m with
     | .ok p _ =>
-      let src := semRes (Sem.Src.runProgram 200000 p.body)
+      let src := match Sem2.Src.runProgram 200000 p.body with
+        | some (k, out) => semOut (toString k) out
+        | none => "U"
       let sh := match Bash.compile p.body with
-        | .ok ls => semRes (Sem.run 200000 ls)
+        | .ok ls =>
+          match Sem2.run 200000 ls with
+          | some (.normal, out) => semOut "0" out
+          | some (.exit k, out) => semOut (toString k) out
+          | _ => "U"
         | _ => "U"
       "SEM " ++ src ++ " " ++ sh ++ (if Sem.Src.fragStmts p.body then " F" else " N")
     | .error => "ERR"
